@@ -31,6 +31,9 @@ def stepFamilies (st : St) (cmd : List String) (got : String) : St × Verdict :=
   | none =>
   match stepL2Rep st cmd got with
   | some r => r
+  | none =>
+  match stepL2Agg st cmd got with
+  | some r => r
   | none => (st, if got.startsWith "skip" then none else some "skip")
 
 /-- plane-level BSI tracking runs alongside the command families: the extra checks use the state BEFORE the line -/
@@ -43,7 +46,7 @@ def stepAll (st : St) (cmd : List String) (got : String) : St × Verdict :=
 def pureQueries : List String :=
   ["card", "empty", "has", "min", "max", "rank", "sel", "cir", "iwi", "eq", "toarr", "toexarr", "nv", "pv", "nav", "pav",
    "andcard", "orcard", "isect", "wf", "size", "ser", "rd", "wrfail", "wrfailall", "rdsplit", "trunc", "chkeq", "dump", "dig", "kern", "kernwf", "popcnt", "dense", "densechk", "safe", "zdetach", "zsame", "frz", "frzsmall", "frzwfail", "fchk", "fgc",
-   "sermany64", "sched", "concdec", "concagg", "bplanes", "hasnext", "peek?", "peek!", "iterate", "values", "backward", "unset", "ranges"]
+   "sermany64", "sched", "concdec", "concagg", "bplanes", "hasnext", "peek?", "peek!", "iterate", "values", "backward", "unset", "ranges", "l2lazy"]
 
 partial def loop (script go : IO.FS.Stream) (st : St) (lineNo : Nat) (fails : Nat) : IO Nat := do
   let l ← script.getLine
